@@ -124,22 +124,23 @@ pub fn models(id: &str, tier: &str) -> Vec<HistoryModel> {
         v.push(base(cfgs, 2, 1, vec!["S0", "S3", "S8"], false));
     }
     // eight-member trees (three levels below the root on both sides)
-    let big = |cfgs: Vec<WorldCfg>, dg: usize| HistoryModel {
+    let big = |cfgs: Vec<WorldCfg>, dg: usize, seeds: Vec<&'static str>| HistoryModel {
         cfgs,
         mon: mon.clone(),
         n_parties: 9,
         depth_initial: dg,
         depth_gallery: dg,
         alphabet: alphabet.clone(),
-        seeds: vec!["S12", "S13", "S14"],
+        seeds,
         all_proposers: false,
         max_deviations: 0,
     };
     if quick {
-        v.push(big(vec![WorldCfg::default()], 2));
-        v.push(big(vec![alt_cfg()], 1));
+        v.push(big(vec![WorldCfg::default()], 2, vec!["S13", "S16"]));
+        v.push(big(vec![WorldCfg::default()], 1, vec!["S12", "S14"]));
+        v.push(big(vec![alt_cfg()], 1, vec!["S12", "S13", "S14", "S16"]));
     } else {
-        v.push(big(vec![WorldCfg::default(), alt_cfg()], 2));
+        v.push(big(vec![WorldCfg::default(), alt_cfg()], 2, vec!["S12", "S13", "S14", "S16"]));
     }
     // deviating rounds (K >= 1): a member races with a commit of its own and loses; the
     // committer gets its own commit back instead of applying it
@@ -174,7 +175,7 @@ pub fn deviation_models(id: &str, tier: &str) -> Vec<HistoryModel> {
 pub fn meta(id: &str, tier: &str) -> Meta {
     let ms = models(id, tier);
     let bounds = bounds_json(&[
-        ("identities", json!("5 (9 in the runs from the eight-member seeds S12, S13, S14)")),
+        ("identities", json!("5 (9 in the runs from the eight- and nine-member seeds S12, S13, S14, S16)")),
         (
             "runs",
             json!(ms
